@@ -32,7 +32,7 @@ func init() {
 	core.Register(&core.Property{
 		ID:    "C16",
 		Level: "fault_enumeration",
-		Rule: "universe = runs of the real binary over 1..3 target files (kinds: two matching, non-matching, unparseable; every kind at every position) with one fault per execution, injected at the system-call boundary: (a) RLIMIT_FSIZE = n for every n from 0 to the size of the largest output (every length at which a write can be cut); (b) SIGKILL delivered on entry of the k-th call, for every k, of each of openat, read, write, close, renameat/renameat2/rename, unlinkat, fchmod/fchmodat/chmod, ftruncate, fsync, newfstatat (strace inject, per call type until k exceeds the number of calls); (c) the same calls failing with ENOSPC, EIO, EACCES, EROFS; (d) logical failures (unparseable source, rewrite error, unparseable result, missing path, missing / unreadable-as-directory / malformed patch, missing patches-file) at every position. " +
+		Rule: "universe = runs of the real binary over 1..3 target files (kinds: two matching, non-matching, unparseable; every kind at every position) with one fault per execution, injected at the system-call boundary: (a) RLIMIT_FSIZE = n for every n from 0 to the size of the largest output (every length at which a write can be cut); (b) SIGKILL delivered on entry of the k-th call, for every k, of each of openat, read, write, close, renameat/renameat2/rename, unlinkat, fchmod/fchmodat/chmod, ftruncate, fsync, newfstatat (strace inject, per call type until k exceeds the number of calls); (c) the same calls failing with ENOSPC, EIO, EACCES, EROFS; (c') pairs of faults: each of those calls failing with ENOSPC at every k while RLIMIT_FSIZE cuts every write at 0, 1, half and all-but-one byte of the largest output (state invariant only); (d) logical failures (unparseable source, rewrite error, unparseable result, missing path, missing / unreadable-as-directory / malformed patch, missing patches-file) at every position. " +
 			"Oracle: after every execution every .go file equals its original or its complete patched bytes from a fault-free reference run; exit 0 implies every file is in its fault-free final state; a failed action on a path of the run implies non-zero exit and a diagnostic naming a path and the OS cause; per-file logical failures leave the other files' results unchanged. The strace logs are read back: every filesystem action of the reference run on the scratch tree must have been the fault point of at least one execution. non-trivial = an execution in which the fault hit an action on the scratch tree",
 		Assumptions: []string{
 			"faults are injected with strace 6.1 (inject=...:signal=SIGKILL / :error=E:when=k) and prlimit; GOMAXPROCS=1 keeps the per-thread call numbering stable; coverage is verified from the logs rather than assumed",
@@ -83,6 +83,20 @@ func c16Gen(tier string, emit func(any)) {
 			emit(&C16Case{Family: "kill", Kinds: sc, Syscall: s})
 			for _, e := range c16Errnos(tier) {
 				emit(&C16Case{Family: "errno", Kinds: sc, Syscall: s, Errno: e})
+			}
+		}
+	}
+	// pairs of faults: a call failing (so that an error path or fallback is taken) while every write is
+	// cut at n bytes; only the state invariant is demanded
+	pairScen := [][]string{{"m"}, {"m", "m2"}}
+	if tier == "thorough" {
+		pairScen = c16Scenarios(tier)
+	}
+	for _, sc := range pairScen {
+		for _, s := range c16Syscalls {
+			emit(&C16Case{Family: "errno+fsize", Kinds: sc, Syscall: s, Errno: "ENOSPC"})
+			if tier == "thorough" {
+				emit(&C16Case{Family: "errno+fsize", Kinds: sc, Syscall: s, Errno: "EACCES"})
 			}
 		}
 	}
@@ -381,6 +395,41 @@ func c16Run(env *core.Env, ci any) core.Outcome {
 			}
 			if v := check(r, fmt.Sprintf("RLIMIT_FSIZE=%d", n)); v != nil {
 				return *v
+			}
+		}
+	case "errno+fsize":
+		max := 0
+		for _, n := range names {
+			if len(final[n]) > max {
+				max = len(final[n])
+			}
+		}
+		limits := []int{0, 1, max / 2, max - 1}
+		for _, lim := range limits {
+			idle := 0
+			for k := 1; k <= 400; k++ {
+				c16Reset(root, orig)
+				log := filepath.Join(root, "inj.log")
+				os.Remove(log)
+				// strace is the outer process (its log must not be subject to the limit); prlimit's own calls
+				// before the exec are counted by when=k as well, which only shifts k
+				inj := fmt.Sprintf("inject=%s:error=%s:when=%d", c.Syscall, c.Errno, k)
+				r := c16Exec(env, root, names, []string{"strace", "-f", "-qq", "-o", log, "-e", "trace=" + traceSet, "-e", inj, "prlimit", fmt.Sprintf("--fsize=%d:%d", lim, lim), "--"}, log, args)
+				execs++
+				if len(scratchActions(r.log, root, true)) > 0 {
+					hits++
+				}
+				if v := check(r, fmt.Sprintf("%s on the %d-th %s of a thread with RLIMIT_FSIZE=%d", c.Errno, k, c.Syscall, lim)); v != nil {
+					return *v
+				}
+				if !strings.Contains(r.log, "(INJECTED)") {
+					idle++
+					if idle >= 2 {
+						break
+					}
+				} else {
+					idle = 0
+				}
 			}
 		}
 	case "kill", "errno":
